@@ -285,8 +285,10 @@ def sel_c07_scalar(tier, seed, names):
     if tier == "thorough":
         return names
     core = [n for n in names if re.search(r"_(if|fi|ff|f|bi)$", n) and not re.match(r"ns_(has|hasnt|intersect|list|all|count|value|invert)", n)]
-    rest = [n for n in names if n not in core]
-    return rot(core, seed, 24) + rot(rest, seed, 6)
+    # the int '/' and '%' VALUE oracles run on every seed (seeded change C07-div-euclid lands only there)
+    always = [n for n in names if n.startswith("nsv_")]
+    rest = [n for n in names if n not in core and n not in always]
+    return always + rot(core, seed, 24) + rot(rest, seed, 6)
 
 
 def sel_all(tier, seed, names):
